@@ -31,6 +31,7 @@ REQUIRED = [
     # deepening round: REST wrapper composed with the key store (NutsProofs.Props.C03Api)
     "fact_api_validate_checks", "fact_api_status_table", "fact_api_handler_steps", "api_signjws_200_only_by_key_id",
     "api_signjwt_200_only_by_key_id", "api_unknown_kid_is_400", "api_invalid_request_independent_of_store", "api_decrypt_200_only_by_key_id",
+    "fact_dpop_sign_overwrites_jwk", "dpop_jwk_is_signing_key",
 ]
 
 STORE_KEY_JWKS = {"ecPriv", "ec384Priv", "rsaPriv", "edPriv"}   # JWK kinds of the key types a key store can hold
@@ -185,7 +186,12 @@ def run(ctx):
             elif k == "save":
                 distinct.add(("save", op["kid"]))
                 # direct oracle: an accepted name creates exactly one file and its parent is the key directory
-                if line.startswith("save ok"):
+                if "LEFT-KEY-MATERIAL-OUTSIDE-KEY-DIR" in line or "SECOND-SAVE-OVERWROTE" in line:
+                    esc += 1
+                    found_violation |= ctx.violation("C03:fs:failed-save-left-private-key-file-outside-key-dir" if "LEFT-KEY" in line else "C03:fs:second-save-overwrote-key",
+                                                     f"SavePrivateKey for name {op['kid']} (hex) under a fault (name taken / key directory gone) returned an error but left a PEM private key "
+                                                     f"outside the key store directory (TMPDIR is watched): {line[:240]}", "fs-key-outside-store.jsonl", ops[i])
+                elif line.startswith("save ok"):
                     m = re.fullmatch(r"save ok file=keys/([0-9a-f]+)", line)
                     if not m:
                         esc += 1
@@ -331,6 +337,30 @@ def run(ctx):
                 found_violation |= ctx.violation("C03:%s:%s-signed-for-a-kid-it-does-not-hold" % (k, op.get("via")),
                                                  f"{op.get('via')} signer produced a token for kid {op.get('kid')!r} which it does not hold: {line[:160]}",
                                                  "sign-for-foreign-kid.jsonl", ops[i])
+            if k == "dpopseq":
+                # every proof of the sequence: verifies with exactly one key, its jwk header is THAT key's public JWK, no secret member,
+                # and the kid it was requested for may have a reference row
+                for kid_, part in zip(op.get("kids") or [], re.sub(r" audit=\[.*\]$", "", impl[i])[len("dpopseq "):].split(" | ")):
+                    mp = re.match(r"ok verifies=\[(.*?)\] jwk=(\S+) secret=([01])", part)
+                    if not mp:
+                        continue
+                    signs_ok += 1
+                    why = None
+                    if mp.group(3) == "1":
+                        why = "jwk-header-has-secret-member"
+                    elif not re.fullmatch(r"K\d+", mp.group(1)):
+                        why = "does-not-verify-with-exactly-one-key"
+                    elif mp.group(2) != mp.group(1):
+                        why = "jwk-header-is-not-the-signing-key"
+                    elif kid_ not in bound:
+                        why = "issued-for-a-kid-without-key-reference"
+                    elif kid_ in published and mp.group(1) != "K%d" % published[kid_]:
+                        why = "not-signed-by-the-key-published-for-kid"
+                    if why:
+                        bind_bad += 1
+                        found_violation |= ctx.violation("C03:ks:dpop-proof-" + why,
+                                                         f"the same DPoP token signed for kids {op.get('kids')} (pre-set jwk: {op.get('preset') or 'none'}): proof for {kid_!r}: {part[:160]}",
+                                                         "ks-dpop-sequence.jsonl", "\n".join(ops[seq_start:i + 1]))
             if k == "jwkclass":
                 jid = op.get("id", "")
                 if jid.endswith("Priv") and "didjwk=forbidden-private" not in line:
@@ -537,5 +567,5 @@ def run(ctx):
                        "(c) SignJWS/SignJWT header maps (11 JWK kinds, typed/untyped headers) via package function, engine and in-memory signer; DPoP / did:jwk JWK classification. "
                        "distinct_nontrivial = distinct names / (dir,name) / (prefix,name) / key-store ops by position / header maps")
     ctx.cov["input_distribution"] = dist
-    if "fs" in outs:
+    if "fs" in outs and outs["fs"][1]:
         ctx.cov["samples"] = [outs["fs"][1][0][:200]] + ([outs["ks"][1][5][:200]] if "ks" in outs and len(outs["ks"][1]) > 5 else [])
